@@ -12,6 +12,12 @@
 #ifndef CFGNAME
 #define CFGNAME "sse2"
 #endif
+// compiled with -DFASTOR_USE_HADD the helpers have their second body: the driver then executes Generated/C16Hadd_<isa>.lean
+#ifdef FASTOR_USE_HADD
+#define VF_CFG CFGNAME "-hadd"
+#else
+#define VF_CFG CFGNAME
+#endif
 namespace rh {
 static inline uint32_t rnd(uint32_t& s) { s = s * 1664525u + 1013904223u; return s >> 8; }
 static inline std::string num(double v) { char b[64]; std::snprintf(b, sizeof b, "%.0f", v); return std::string(b) == "-0" ? "0" : b; }
@@ -36,7 +42,7 @@ void hstep(const char* fn, int kind, uint32_t ds, F f) {
         double want = (double)x[0];
         for (int i = 1; i < L; ++i) want = kind == 0 ? std::max(want, (double)x[i]) : kind == 1 ? std::min(want, (double)x[i]) : kind == 2 ? want + (double)x[i] : want * (double)x[i];
         T got = f(x);
-        std::printf("hstep cfg=%s fn=%s ds=%u x=", CFGNAME, fn, ds);
+        std::printf("hstep cfg=%s fn=%s ds=%u x=", VF_CFG, fn, ds);
         for (int i = 0; i < L; ++i) std::printf("%s%s", i ? "," : "", num((double)x[i]).c_str());
         std::printf(" | R=%s ORACLE=%s\n", num((double)got).c_str(), (double)got == want ? "ok" : "FAIL");
     }
@@ -91,7 +97,7 @@ void hspec(const char* fn, int what, int M, uint32_t ds, F f) {
         else for (int i = 0; i < N; ++i) want += (double)x[i] * y[i];
         double got = (double)f(x, y);
         if (what == 0) got = std::round(got * got);
-        std::printf("hspec cfg=%s fn=%s ds=%u x=", CFGNAME, fn, ds);
+        std::printf("hspec cfg=%s fn=%s ds=%u x=", VF_CFG, fn, ds);
         for (int i = 0; i < N; ++i) std::printf("%s%s", i ? "," : "", num((double)x[i]).c_str());
         if (what == 3) { std::printf(" y="); for (int i = 0; i < N; ++i) std::printf("%s%s", i ? "," : "", num((double)y[i]).c_str()); }
         std::printf(" | R=%s ORACLE=%s\n", num(got).c_str(), got == want ? "ok" : "FAIL");
